@@ -46,10 +46,10 @@ CHECKS = {
    text="Single edits are enumerated exhaustively (field paths x 21 replacement kinds on v2, link-encrypted v2, v1, manifest and v0 templates); multi-edits, bit flips and placements are sampled; every accessor / comparator / Verify / Join is called on whatever decodes; stored logs with hostile blocks at head / interior / root / reference-only positions must load the rest through all loaders with the process alive, the loaded log must keep working (size-bounded merges with every bound class, iteration, append), head lists with 40-240 hostile blocks interleaved load completely at high concurrency; a fifth of the quick placement cases again under the race detector.",
    note="In-process decode calls run under recover; loader-driven cases run in children so a panic on a fetcher goroutine is attributed through the journal."),
  "C13": dict(cat="exploration", ref="§3 C13", tech="Go race detector + forced-preemption sweep at verif hook points + porcupine linearizability of the mutator history + offline history checker + read-result monitors + deadlock classifier",
-   text="Race-instrumented children run short concurrent histories on one log (free-running, seeded noise, and a sweep parking one worker at every hook point while every other operation kind runs); oracles: race reports with both stacks in the library, state-based deadlock verdicts, exactly-once / real-time-implies-causal / one-chain checks, porcupine against a sequential log model, structural monitors on every read.",
+   text="Race-instrumented children run short concurrent histories on one log (free-running, seeded noise, and a sweep parking one worker at every hook point - and while it holds a RawHeads() result - while every other operation kind runs, also with a merge source that is ahead of the log); operation kinds include bounded iterations and merges FROM the shared log; a bounded-merge workload (race / deadlock) and one whose bounds cannot trim (no append may be lost); oracles: race reports with both stacks in the library, state-based deadlock verdicts, exactly-once / real-time-implies-causal / one-chain checks, porcupine against a sequential log model, structural monitors on every read.",
    note="Interleavings are sampled; the sweep is exhaustive only at hook granularity with one preemption. Reads are not required to be linearizable."),
  "C14": dict(cat="exploration", ref="§3 C14", tech="offline window checker over exactly recorded single-mutator state chains + directed parking between the source reads + deadlock classifier + race detector",
-   text="Live-append, live-merge, cross-merge and ring scenarios; every merge result must be before U S_i for a source state S_i recorded inside the call/return window, with heads an exact function of the result, causal closure w.r.t. all entries ever created, and termination.",
+   text="Live-append, live-merge, cross-merge, ring, four-party, stalled-reader, ladder (logical step bound), after-refusals, hub and constant-size-source scenarios; every merge result must be before U S_i for a source state S_i recorded inside the call/return window, with heads an exact function of the result, causal closure w.r.t. all entries ever created, and termination.",
    note="Each log has one mutator goroutine so its state chain is known exactly; window bounds come from one atomic logical clock."),
  "C15": dict(cat="exploration", ref="§3 C15", tech="runtime monitor: exact expected-sequence oracle from the reference model for seeded iterator queries, run under recover with post-return channel drain",
    text="Seeded option combinations (default / 1-3 inclusive / exclusive / unknown upper bounds, inclusive / exclusive lower bounds inside the range, amounts 0..size+2) on forked logs; sequence, closure, error and no-panic clauses; in child processes every kind of bounded iteration is parked at its hook points while a writer starts on the same log, and trimmed logs are iterated at their oldest entry before a writer runs (state-based deadlock classifier).",
